@@ -170,6 +170,18 @@ def random_network(rng, quick=True, force=None):
         spec["options"]["specific_gravity"] = rng.choice([0.8, 1.2, 1.0])
         spec["options"]["demand_multiplier"] = rng.choice([1.0, 1.0, 0.8, 1.3])
         spec["options"]["viscosity"] = rng.choice([1.0, 1.0, 1.5])
+    # edits of the finished model before the run (C06 stream): links at tanks reversed / split / re-pointed
+    if force.get("morph"):
+        ms = []
+        tank_links = [p["name"] for p in spec["pipes"] if p["name"].startswith("L")] + [p["name"] for p in spec["pumps"] if p["name"].startswith("L")]
+        tank_pipes = [p["name"] for p in spec["pipes"] if p["name"].startswith("L") and not p["cv"]]
+        for ln in rng.sample(tank_links, min(len(tank_links), rng.choice([1, 1, 2]))):
+            ms.append({"op": rng.choice(["reverse", "reverse", "swap_ends"]), "link": ln, "copy": rng.random() < 0.3})
+        if tank_pipes and rng.random() < 0.4:
+            ln = rng.choice([x for x in tank_pipes if not any(m["link"] == x for m in ms)] or tank_pipes)
+            if not any(m["link"] == ln for m in ms):
+                ms.append({"op": "split", "link": ln, "at": rng.choice([0.25, 0.5, 0.8]), "at_end": rng.random() < 0.5})
+        spec["morph"] = ms
     # the overflow flag ("always False for the WNTRSimulator": the limit controls must not depend on it)
     for tk in spec["tanks"]:
         if force.get("overflow", rng.random() < 0.25):
@@ -550,6 +562,16 @@ def two_threshold_spec(curve=False, same_tank=True):
     return spec
 
 
+def reversed_tank_link_spec(op="reverse"):
+    """seeded/C06-12: the pipe that ends at the tank is reversed after the model was built (wntr.morph.link.reverse_link, or the two
+    setter assignments): the tank must still list the link -- limit controls, flow in its demand, level following the link flow"""
+    s = priority_presolve_spec(3, "min")
+    s["controls"] = []
+    s["pipes"][0].update({"start": "J", "end": "T"})   # P: J -> T (the tank is the END node), flow leaves the tank against the direction
+    s["morph"] = [{"op": op, "link": "P"}]
+    return s
+
+
 def reservoir_pattern_spec(hw_approx="default"):
     """seeded/C06-9: a tank fed by gravity from a reservoir whose head follows a pattern (40 m / 20 m, six hours each),
     pattern_start = 6 h (the run starts in the low half): the tank drains to min_level and must stop there"""
@@ -750,6 +772,24 @@ def build_wn(wntr, spec, report="ALL"):
     for v in spec["valves"]:
         wn.add_valve(v["name"], v["start"], v["end"], diameter=v["diam"], valve_type=v["type"], minor_loss=v.get("minor_loss", 0.0),
                      initial_setting=v["setting"])
+    # the model EDITED after construction, before the run: reverse_link, split_pipe / break_pipe next to tanks, re-pointing an end
+    for m in spec.get("morph", []):
+        if m["op"] == "reverse":
+            wn = wntr.morph.link.reverse_link(wn, m["link"], return_copy=bool(m.get("copy", False)))
+        elif m["op"] == "swap_ends":  # the two setter assignments reverse_link makes, spelled out
+            l = wn.get_link(m["link"])
+            a, b = l.start_node, l.end_node
+            l.start_node = b
+            l.end_node = a
+        elif m["op"] == "split":
+            wn = wntr.morph.link.split_pipe(wn, m["link"], m["link"] + "_B", m["link"] + "_N", add_pipe_at_end=bool(m.get("at_end", True)),
+                                            split_at_point=m.get("at", 0.5), return_copy=False)
+        elif m["op"] == "break":
+            wn = wntr.morph.link.break_pipe(wn, m["link"], m["link"] + "_B", m["link"] + "_N1", m["link"] + "_N2",
+                                            add_pipe_at_end=bool(m.get("at_end", True)), split_at_point=m.get("at", 0.5), return_copy=False)
+        elif m["op"] == "repoint":
+            l = wn.get_link(m["link"])
+            setattr(l, m["end"], wn.get_node(m["node"]))
     for c in spec["controls"]:
         link = wn.get_link(c["link"])
         if c.get("act", "status") == "status":
